@@ -6,6 +6,8 @@ stored data, dimension descriptors, containers, links, creation times) compared 
 import file_common
 
 def run(chk, replay=None):
+    if replay is not None and replay.get('m') == 'trace':
+        return file_common.run_traces(chk, lambda e: e['a'] == 'Open', 1, 0, replay=replay)
     t = 't' if chk.thorough else 'q'
     cfgs = ['c02%s_%s' % (x, t) for x in 'abcdefg']
     sims = [('all', 6000 if chk.thorough else 400, 35)]
@@ -14,4 +16,6 @@ def run(chk, replay=None):
                 'kinds (BFS exhaustive within the bounds) plus Open steps of random behaviours over the whole vocabulary (9 creations, nesting); '
                 'full observation compared after reopen in rw and ro mode')
     file_common.run_file_check(chk, cfgs, sims, judge=judge, replay=replay, opts={'ignore_handles': True},  coverage=['Open', 'pre:Close', 'pre:SetAttr', 'pre:AppendDim', 'pre:AddLink', 'pre:SetOne', 'pre:Delete'])
+    # direction B: random API programs recorded from the real library, validated against NixFileTrace.tla
+    file_common.run_traces(chk, lambda e: e['a'] == 'Open', 24 if chk.thorough else 6, 1500 if chk.thorough else 400)
     chk.exhaustive = False
